@@ -13,6 +13,7 @@ import (
 	ethtypes "github.com/ethereum/go-ethereum/core/types"
 
 	cpcabi "github.com/EscanBE/evermint/v12/x/cpc/abi"
+	cpctypes "github.com/EscanBE/evermint/v12/x/cpc/types"
 
 	"verifharness/vh"
 )
@@ -715,8 +716,16 @@ func (w *world) prelude() [][]*op {
 		{w.directOp(e0, &call{Tok: 1, Method: "approve", A1: e1.Addr, Amount: amt})},
 		{w.directOp(e1, &call{Tok: 0, Method: "transferFrom", A1: e0.Addr, A2: e1.Addr, Amount: amt})},
 		{w.directOp(e1, &call{Tok: 1, Method: "transferFrom", A1: e0.Addr, A2: e1.Addr, Amount: amt})},
+		// the account the precompile burns through holds coins of its own (anybody can send them there) while
+		// somebody else burns: exactly the stated amount is destroyed and the holding stays
+		{w.directOp(e0, &call{Tok: 0, Method: "transfer", A1: cpctypes.CpcModuleAddress, Amount: big.NewInt(777)}),
+			w.directOp(e1, &call{Tok: 1, Method: "transfer", A1: cpctypes.CpcModuleAddress, Amount: big.NewInt(555)})},
+		{w.directOp(e1, &call{Tok: 0, Method: "burn", Amount: big.NewInt(5)}),
+			w.directOp(e0, &call{Tok: 1, Method: "burn", Amount: big.NewInt(7)})},
 	}
 }
+
+const preludeSteps = 5
 
 func (w *world) byName(n string) *holder {
 	for _, h := range w.holders {
